@@ -416,6 +416,88 @@ func c14tcp(env *Env, out *sync.Mutex, rng *Rng, peerClose bool, closers int) {
 	c14emit(env, out, "tcp", scen, closers, a, p, panics.Load(), extra)
 }
 
+// c14tcpIdle runs alone (no other exporter alive): the peer closes while the application is
+// idle; the connection checker must notice (its goroutine ends: logical wait) and the first
+// send afterwards must fail.
+func c14tcpIdle(env *Env, out *sync.Mutex, rng *Rng) {
+	ln, err := net.Listen("tcp", "127.0.0.1:0")
+	if err != nil {
+		panic(err)
+	}
+	defer ln.Close()
+	p := &c14peer{}
+	peerDone := make(chan struct{})
+	closeNow := make(chan struct{})
+	go func() {
+		defer close(peerDone)
+		c, err := ln.Accept()
+		if err != nil {
+			return
+		}
+		defer c.Close()
+		hdr := make([]byte, 4)
+		for {
+			select {
+			case <-closeNow:
+				return
+			default:
+			}
+			c.SetReadDeadline(time.Now().Add(5 * time.Millisecond))
+			if _, err := io.ReadFull(c, hdr[:1]); err != nil {
+				if ne, ok := err.(net.Error); ok && ne.Timeout() {
+					continue
+				}
+				return
+			}
+			c.SetReadDeadline(time.Time{})
+			if _, err := io.ReadFull(c, hdr[1:]); err != nil {
+				p.junk.Add(1)
+				return
+			}
+			l := int(binary.BigEndian.Uint16(hdr[2:]))
+			if l < 4 {
+				p.junk.Add(1)
+				return
+			}
+			b := make([]byte, l)
+			copy(b, hdr)
+			if _, err := io.ReadFull(c, b[4:]); err != nil {
+				p.junk.Add(int64(l))
+				return
+			}
+			p.add(c14parse(b))
+		}
+	}()
+	ep, err := exporter.InitExportingProcess(exporter.ExporterInput{
+		CollectorAddress: ln.Addr().String(), CollectorProtocol: "tcp", ObservationDomainID: 1,
+		CheckConnInterval: 50 * time.Millisecond})
+	if err != nil {
+		panic(err)
+	}
+	a := &c14app{ep: ep}
+	a.sendTemplate()
+	nsend := int64(1 + rng.Intn(5))
+	for i := int64(0); i < nsend; i++ {
+		a.sendData(rng)
+	}
+	waitFor(5*time.Second, func() bool { return p.nall.Load() >= nsend+1 })
+	close(closeNow)
+	<-peerDone
+	extra := ""
+	// the application is idle: only the connection checker can notice
+	if !waitFor(10*time.Second, func() bool { return c14background() == 0 }) {
+		extra += " peer-close-never-noticed"
+	}
+	for i := 0; i < 5; i++ {
+		if a.sendData(rng) == "ok" && extra == "" {
+			extra += " send-succeeded-after-the-checker-noticed-the-peer-close"
+		}
+	}
+	var panics atomic.Int64
+	c14closers(ep, 2, &panics).Wait()
+	c14emit(env, out, "tcp", "idle", 2, a, p, panics.Load(), extra)
+}
+
 func c14background() int {
 	buf := make([]byte, 1<<22)
 	n := runtime.Stack(buf, true)
@@ -427,7 +509,7 @@ func runC14(env *Env) {
 	var wg sync.WaitGroup
 	type job func(rng *Rng)
 	var jobs []job
-	nrefresh, nclose, npeer := 3, 24, 8
+	nrefresh, nclose, npeer := 6, 64, 16
 	if env.Thorough() {
 		nrefresh, nclose, npeer = 12, 400, 60
 	}
@@ -478,6 +560,12 @@ func runC14(env *Env) {
 	wg.Wait()
 	// every exporter has been closed: its background goroutines must be gone (logical wait)
 	waitFor(10*time.Second, func() bool { return c14background() == 0 })
+	if c14background() == 0 && (len(env.Replay) == 0 || npeer > 0) {
+		for i := 0; i < 3; i++ {
+			c14tcpIdle(env, &out, NewRng(env.Seed*7+uint64(i)))
+		}
+		waitFor(10*time.Second, func() bool { return c14background() == 0 })
+	}
 	out.Lock()
 	env.Emit("C14 leak", fmt.Sprintf("G %d", c14background()))
 	out.Unlock()
